@@ -482,14 +482,8 @@ func init() {
 			prefix, text := c[0], c[1]
 			ch, err := cmdhandler.New(prefix)
 			if err != nil {
-				res := Result{Obs: "E", Sig: "new-fails"}
-				if utf8.ValidString(prefix) {
-					res.Oracle = "new-rejects-prefix: New fails for a valid UTF-8 prefix: " + err.Error()
-				}
-				return res
-			}
-			if !utf8.ValidString(prefix) {
-				return Result{Obs: "ok", Oracle: "new-accepts-invalid-utf8: New accepted a prefix that is not valid UTF-8", Sig: "new"}
+				// every byte string is a prefix ("all prefixes"): New has no reason to fail
+				return Result{Obs: "E", Sig: "new-fails", Oracle: "new-rejects-prefix: New fails for prefix " + strconv.Quote(prefix) + ": " + err.Error()}
 			}
 			// register every substring of the text that is a valid name
 			seen := map[string]bool{"help": true}
@@ -519,7 +513,6 @@ func init() {
 				res.Obs = fmt.Sprintf("?multi:%d invocations, %d lines", len(invs), len(lines))
 			}
 			m := specAddressed(prefix, text)
-			fffdAlias := strings.Contains(prefix, replacementRune) && !strings.HasPrefix(text, prefix)
 			switch {
 			case m == nil:
 				res.Sig = "unaddressed"
@@ -528,14 +521,15 @@ func init() {
 			default:
 				res.Sig = "addressed/" + strconv.Itoa(len(m.args))
 			}
-			if fffdAlias {
-				// documented assumption: a U+FFFD in the prefix also matches an invalid byte
-				res.Sig += "/fffd"
-				return res
+			if !utf8.ValidString(prefix) {
+				res.Sig += "/prefix-not-utf8"
 			}
 			switch {
 			case len(invs) > 1:
 				res.Oracle = "match-multiple: more than one function invoked"
+			case len(invs) > 0 && !strings.HasPrefix(text, prefix):
+				// repaired in cd20b6b (a U+FFFD of the prefix matched any invalid byte of the text)
+				res.Oracle = "invoked-without-prefix: a function ran although the text does not begin with the prefix"
 			case (m == nil || m.name == "help") && len(invs) > 0:
 				res.Oracle = "match-invokes-unaddressed: a function ran for a text that addresses no command"
 			case m != nil && m.name != "help" && len(invs) == 0:
@@ -729,11 +723,7 @@ func init() {
 			cs := decodeCmds(rest[k:])
 			ch, err := cmdhandler.New(prefix)
 			if err != nil {
-				res := Result{Obs: "E", Sig: "new-fails"}
-				if utf8.ValidString(prefix) {
-					res.Oracle = "new-rejects-prefix: " + err.Error()
-				}
-				return res
+				return Result{Obs: "E", Sig: "new-fails", Oracle: "new-rejects-prefix: New fails for prefix " + strconv.Quote(prefix) + ": " + err.Error()}
 			}
 			// the table the statement expects: the registrations Add accepted
 			type reg struct {
@@ -810,10 +800,6 @@ func init() {
 				m = specAddressed(prefix, e.Params[len(e.Params)-1])
 			}
 			res.Sig = cmdExecSig(e, m, len(invs), len(lines))
-			if strings.Contains(prefix, replacementRune) && (len(e.Params) == 0 || !strings.HasPrefix(e.Params[len(e.Params)-1], prefix)) {
-				res.Sig += "/fffd"
-				return res
-			}
 			addressed := e.Source != nil && e.Command == "PRIVMSG" && m != nil && m.name != "help"
 			var target reg
 			if addressed {
@@ -825,6 +811,8 @@ func init() {
 			switch {
 			case len(invs) > 1:
 				res.Oracle = "exec-multiple: more than one invocation for one message"
+			case len(invs) > 0 && (len(e.Params) == 0 || !strings.HasPrefix(e.Params[len(e.Params)-1], prefix)):
+				res.Oracle = "invoked-without-prefix: a function ran although the text does not begin with the prefix"
 			case !addressed && len(invs) > 0:
 				res.Oracle = "exec-invokes-unaddressed: a function ran for a message that addresses no registered command"
 			case addressed && len(m.args) < target.minArgs && len(invs) > 0:
